@@ -23,6 +23,7 @@ CONSTANTS
   Names,       \* stored user names (lower-case: every documented path lower-cases the name before storing)
   Pws,         \* non-empty password strings credentials are made from
   LongPws,     \* members of Pws longer than 72 bytes: bcrypt refuses to hash them, so they are never upgraded
+  Pw72,        \* members of Pws of exactly 72 bytes (the longest bcrypt hashes)
   ExtraCands,  \* further literal candidate passwords (empty, case variants, padded, unrelated)
   PermSets,    \* permission sets a stored record may carry
   InitFmts,    \* credential formats present in the initial store
@@ -46,6 +47,7 @@ Sha(s) == "sha256(" \o s \o ")"
 Bc(s)  == "bcrypt(" \o s \o ")"
 Brace(s) == "{" \o s \o "}"
 Cyc(s) == s \o "<NUL>" \o s          \* the password, a NUL byte, the password again
+Ext(s) == s \o "x"                  \* the password followed by one more character
 Text(u) == CASE u.fmt = "bcrypt" -> Bc(u.pw)
              [] u.fmt = "sha"    -> Sha(u.pw)
              [] u.fmt = "plain"  -> Brace(u.pw)
@@ -59,12 +61,14 @@ CandOf(n, ck, lit) ==
     [] ck = "cyc"    -> Cyc(store[n].pw)
     [] ck = "braced" -> Brace(store[n].pw)
     [] ck = "hashof" -> Sha(store[n].pw)                 \* the SHA-256 hex of the right password
+    [] ck = "ext"    -> Ext(store[n].pw)
 Lits == Pws \cup ExtraCands
 \* abstract identity of a Validate case (used in finding keys): the credential addressed and how the candidate relates to it
 Ctx(n) == IF store[n].on THEN store[n].fmt \o "/" \o store[n].from ELSE "absent"
 Rel(n, ck, c) == IF c = "" THEN "empty"
                  ELSE IF store[n].on /\ c = store[n].pw THEN "right"
-                 ELSE IF ck = "lit" THEN (IF c \in Pws THEN "otherpw" ELSE "wrong") ELSE ck
+                 ELSE IF ck = "lit" THEN (IF c \in Pws THEN "otherpw" ELSE "wrong")
+                 ELSE IF ck = "ext" /\ store[n].pw \in Pw72 THEN "ext72" ELSE ck
 
 (* ---------------- the property, declaratively ---------------- *)
 Exists(n, sp)  == Resolves(sp) /\ store[n].on
@@ -74,14 +78,15 @@ Accepts(n, sp, c) == Exists(n, sp) /\ Matches(store[n], c) /\ Permitted(store[n]
 
 (* every candidate any Validate step can present for user n in this state *)
 AllCands(n) == Lits \cup (IF store[n].on
-                          THEN {Text(store[n]), Cyc(store[n].pw), Brace(store[n].pw), Sha(store[n].pw)}
+                          THEN {Text(store[n]), Cyc(store[n].pw), Brace(store[n].pw), Sha(store[n].pw), Ext(store[n].pw)}
                           ELSE {})
 (* acceptance as a function of (user, candidate) over the candidates of THIS state; compared across a step *)
 AcceptSetOf(n) == {c \in AllCands(n) : Accepts(n, "exact", c)}
 
 (* ---------------- ValidatePassword, as written ---------------- *)
 BcMatch(c, u) ==
-  IF Impl = "bcryptcyc" THEN (c = u.pw \/ c = Cyc(u.pw))   \* negative control: bcrypt's cyclic key schedule
+  IF Impl = "bcryptcyc" THEN (c = u.pw \/ c = Cyc(u.pw) \/ (u.pw \in Pw72 /\ c = Ext(u.pw)))
+                              \* negative control: bcrypt's key schedule (repeats the key, reads 72 bytes)
   ELSE Bc(c) = Text(u)
 HasPerm(u) == IF Impl = "nopermbc" /\ u.fmt = "bcrypt" THEN TRUE ELSE Permitted(u)
 
